@@ -18,6 +18,7 @@ RULE = ('L0: one case = one seeded operation sequence (acquire/timed acquire/rel
 ASSUMPTIONS = ['apply_async blocking is observed in SIM as "semaphore value is 0 and a non-blocking acquire fails"; real blocking is in the REAL lane']
 JOBS = 14
 SPEC_TIMEOUT = 900
+CONFIRM_ALONE = ('putlock_pool_hung', 'blocked_submitter_never_released')
 FLOORS = {
     'quick': {'l0:sem_ops': 100000, 'l0:release_at_cap': 500, 'l0:sem_mt_acquires': 4000,
               'sim:sem_reads': 15000, 'sim:submit_skipped_no_slot': 1000, 'sim:quiescence_checks': 300,
